@@ -15,6 +15,7 @@ type cval struct {
 	typ  types.Type // may be nil (ghost / spec values)
 	sort string
 	lv   *LValue // when the value denotes a location (pointer params bound to lvalues)
+	cell bool    // t is the CONTENT of the captured-variable cell lv (auto-dereferenced)
 }
 
 type evalEnv struct {
@@ -83,7 +84,7 @@ func (env *evalEnv) resolveType(name string) (string, types.Type) {
 	case "error":
 		return "Iface", types.Universe.Lookup("error").Type()
 	case "any":
-		return "Iface", types.NewInterfaceType(nil, nil)
+		return "Iface", types.Universe.Lookup("any").Type()
 	case "bytes":
 		return "Slice", types.NewSlice(types.Typ[types.Uint8])
 	case "ArrInt":
@@ -533,7 +534,8 @@ func (env *evalEnv) mapSorts(m cval) (ks, vs string, vt types.Type) {
 	if !ok {
 		evalFail("not a map: %s", m.typ)
 	}
-	return env.fx.sortOf(mt.Key()), env.fx.sortOf(mt.Elem()), mt.Elem()
+	ks, vs = env.fx.mapKV(mt)
+	return ks, vs, mt.Elem()
 }
 
 func (env *evalEnv) evalCall(x *ECall) cval {
@@ -582,7 +584,7 @@ func (env *evalEnv) evalCall(x *ECall) cval {
 		k := env.eval(x.Args[1])
 		ks, vs, vt := env.mapSorts(m)
 		h := env.heapGet(mapValName(ks, vs), "(Array Int (Array "+ks+" "+vs+"))")
-		return cval{t: "(select (select " + h + " " + m.t + ") " + k.t + ")", sort: vs, typ: vt}
+		return cval{t: "(select (select " + h + " " + m.t + ") " + k.t + ")", sort: fx.realSort(vs), typ: vt}
 	case "str":
 		// str(bytes) : the string with the slice's content
 		argn(1)
@@ -646,6 +648,16 @@ func (env *evalEnv) evalCall(x *ECall) cval {
 			evalFail("callres index out of range")
 		}
 		return cval{t: rs[i], sort: srt, typ: typ}
+	case "chantyped":
+		// chantyped(c): c is nil or a channel of its static element type
+		argn(1)
+		v := env.eval(x.Args[0])
+		ct, ok := v.typ.Underlying().(*types.Chan)
+		if !ok {
+			evalFail("chantyped: not a channel")
+		}
+		fx.declare("chan.type", "(declare-const chan.type (Array Int Int))")
+		return cval{t: fmt.Sprintf("(or (= %s 0) (= (select chan.type %s) %d))", v.t, v.t, fx.typeID(ct.Elem())), sort: "Bool"}
 	case "substr":
 		argn(3)
 		sv := env.eval(x.Args[0])
